@@ -203,6 +203,7 @@ TYPE_SEQS = [
     (['vector', '<', 'DataArray', '>'], 'vec_DataArray'),
     (['vector', '<', 'Variant', '>'], 'vec_Variant'),
     (['vector', '<', 'Source', '>'], 'vec_Source'),
+    (['vector', '<', 'Column', '>'], 'vec_Column'),
     (['vector', '<', 'Section', '>'], 'vec_Section'),
     (['queue', '<', 'SourceCont', '>'], 'queue_SourceCont'),
     (['Filter', '<', 'Source', '>', '::', 'type'], 'SourceFilterFn'),
@@ -216,7 +217,7 @@ TYPE_SEQS = [
 OPT_TYPES = {'opt_ndsize': 'ndsize', 'opt_pair': 'pair', 'opt_double': 'double', 'opt_string': 'string', 'opt_H5Group': 'H5Group'}
 OPT_PAYLOAD_CLASS = {'opt_H5Group': 'H5Group'}
 VEC_TYPES = {'vec_double', 'vec_ndsize', 'vec_string', 'vec_opt_pair', 'vec_pair', 'vec_dpair',
-             'vec_Dimension', 'vec_NDSize', 'vec_int', 'vec_DataView', 'vec_nstr', 'vec_DataArray', 'vec_Variant', 'vec_Source', 'vec_Section'}
+             'vec_Dimension', 'vec_NDSize', 'vec_int', 'vec_DataView', 'vec_nstr', 'vec_DataArray', 'vec_Variant', 'vec_Source', 'vec_Section', 'vec_Column'}
 STRUCT_TYPES = set(OPT_TYPES) | VEC_TYPES | {'pair_ndsize', 'pair_double', 'NDSize', 'nstring'}
 
 QUALIFIERS = {'std', 'boost', 'nix', 'util', 'base', 'check', 'hdf5', 'h5x'}
@@ -466,6 +467,8 @@ def r_vectors(ctx, toks):
     out = []; i = 0; n = len(toks)
     while i < n:
         t = toks[i]
+        if t.k == 'id' and t.t in VEC_TYPES and i + 2 < n and toks[i + 1].k == 'id' and toks[i + 2].t == ';' and (not out or out[-1].t in (';', '{', '}')):
+            out.extend([t, toks[i + 1], P('='), P('{', ' '), Tok('num', '0', ''), P('}', '')]); i += 2; fire(ctx, 'vec-default-ctor'); continue
         if t.k == 'id' and t.t in ctx.env and ctx.env[t.t][0] in VEC_TYPES and (not out or out[-1].t not in ('.', '->')):
             ty, ref = ctx.env[t.t]
             acc = '->' if ref else '.'
@@ -481,6 +484,12 @@ def r_vectors(ctx, toks):
                 if m == 'empty':
                     out.extend([P('(', t.ws), Tok('id', t.t, ''), P(acc, ''), Tok('id', 'n', ''), P('=='), Tok('num', '0', ' '), P(')', '')])
                     i += 5; fire(ctx, 'vec-empty'); continue
+            if i + 3 < n and toks[i + 1].t == '.' and toks[i + 2].t == 'resize' and toks[i + 3].t == '(' and (ty + '_resize') in ctx.sigs:
+                # v.resize(n): call of the (stub) primitive vec_T_resize(&v, n)
+                out.append(Tok('id', ty + '_resize', t.ws)); out.append(P('(', '')); out.extend(addr(ctx, t.t)); out.append(P(',', ''))
+                i += 4; fire(ctx, 'vec-resize'); continue
+            if i + 4 < n and toks[i + 1].t == '.' and toks[i + 2].t == 'data' and toks[i + 3].t == '(' and toks[i + 4].t == ')':
+                out.extend([t, P(acc, ''), Tok('id', 'data', '')]); i += 5; fire(ctx, 'vec-data'); continue
             if i + 3 < n and toks[i + 1].t == '.' and toks[i + 2].t == 'push_back' and toks[i + 3].t == '(' and (ty + '_push_back') in ctx.sigs:
                 # v.push_back(x): growth of a result vector is a call of the (stub) primitive vec_T_push_back(&v, x)
                 out.append(Tok('id', ty + '_push_back', t.ws)); out.append(P('(', '')); out.extend(addr(ctx, t.t)); out.append(P(',', ''))
